@@ -190,12 +190,19 @@ theorem C18_composite_setter_accepts_exactly_declared_class (np : Oracle) (tbl :
 
 /-- … in particular an instance created through the package alias `Name_M` (the newest minor version,
 `C18_alias_is_newest_minor`) is accepted by a field declared as `Name.M.m` iff `m` is that newest minor: a field
-declared with an OLDER minor version rejects it. -/
+declared with an OLDER minor version rejects it.  (`hfree`: no class of the package is itself called `Name_M`.) -/
 theorem C18_alias_instance_accepted_iff_declared_is_newest (np : Oracle) (tbl : List ClsKey) (decl : ClsKey)
-    (union : Bool) (fs : List Ty) (slots : List Py) (hd : decl ∈ tbl) :
+    (union : Bool) (fs : List Ty) (slots : List Py) (hd : decl ∈ tbl)
+    (hfree : ∀ k ∈ tbl, k.ns = decl.ns → keyRef k ≠ aliasName decl.name decl.major) :
     (∃ v, setViaAlias np tbl decl union fs decl.ns decl.name decl.major slots = .ok v)
       ↔ newestMinor ((tbl.filter (fun k => k.ns = decl.ns)).map keyTyId) decl.name decl.major = some decl.minor := by
-  unfold setViaAlias
+  have hnone : (tbl.filter (fun k => k.ns = decl.ns)).find? (fun k => keyRef k = aliasName decl.name decl.major) = none := by
+    rw [List.find?_eq_none]
+    intro k hk
+    obtain ⟨hkt, hkn⟩ := List.mem_filter.1 hk
+    simp only [decide_eq_true_eq] at hkn
+    simpa using hfree k hkt hkn
+  simp only [setViaAlias, hnone]
   cases hk : newestMinor ((tbl.filter (fun k => k.ns = decl.ns)).map keyTyId) decl.name decl.major with
   | none => simp
   | some k =>
@@ -223,6 +230,15 @@ example :
         (.obj (clsOf tbl ⟨["v", "other"], "Point", 1, 0⟩) [.bool true]) = .error .value
     ∧ setViaAlias npArray tbl ⟨["v", "geo"], "Point", 1, 0⟩ false [.bool] ["v", "geo"] "Nope" 1 [] = .error .other := by
   refine ⟨?_, ?_, ?_, ?_⟩ <;> rfl
+
+/-- `A.1.2` next to `A_1.2.0` (corpus `alias.json`): `pn.A_1_2` is the class of `A.1.2`, so a field declared
+`A_1.2.0` rejects `pn.A_1_2()` and a field declared `A.1.2` accepts it. -/
+example :
+    let tbl : List ClsKey := [⟨["pn"], "A", 1, 2⟩, ⟨["pn"], "A_1", 2, 0⟩]
+    setViaAlias npArray tbl ⟨["pn"], "A_1", 2, 0⟩ false [] ["pn"] "A_1" 2 [] = .error .value
+    ∧ setViaAlias npArray tbl ⟨["pn"], "A", 1, 2⟩ false [] ["pn"] "A_1" 2 [] = .ok (.obj 0 [])
+    ∧ setViaAlias npArray tbl ⟨["pn"], "A", 1, 2⟩ false [] ["pn"] "A" 1 [] = .ok (.obj 0 []) := by
+  refine ⟨?_, ?_, ?_⟩ <;> rfl
 
 /-! ### out-of-range and wrong-length candidates raise `ValueError` (and exactly which ones do not) -/
 
@@ -804,15 +820,46 @@ theorem C18_get_model_independent_of_other_definitions {M B : Type} (c : Codec M
   rw [(C18_get_model_is_rendered_model c true fs1 fs1' defs1 hm1 hj1 h1 d hd1).1,
     (C18_get_model_is_rendered_model c true fs2 fs2' defs2 hm2 hj2 h2 d hd2).1]
 
+/-- `get_model(pkg.Name_M_m)` — the versioned name of a class in its namespace package — is the model of exactly that
+definition, for **every** run: no alias can rebind the name of a generated class (repaired `Namespace.j2`; before the
+fix `Foo_1.2.0` next to `Foo.1.2` made `pkg.Foo_1_2` the class of `Foo_1.2.0`, see the example below). -/
+theorem C18_get_model_through_versioned_name {M B : Type} (c : Codec M B) (allow : Bool) (fs fs' : FS B)
+    (defs : List (Def M)) (hmods : (defs.map modulePath).Nodup) (hdisj : ∀ d ∈ defs, modulePath d ∉ packages defs)
+    (h : generateAll c allow fs defs = .ok fs') (d : Def M) (hd : d ∈ defs) (hns : d.ns ≠ []) :
+    getModelVia c fs' d.ns (shortRef d) = some d.model := by
+  have hspec := (writeAll_spec allow (outputs c defs) fs fs' (outputs_nodup c defs hmods hdisj) h).1
+  have hpkg : fs' d.ns = some (renderPackage defs d.ns) :=
+    hspec (d.ns, renderPackage defs d.ns) (by
+      simp only [outputs, List.mem_append, List.mem_map]
+      refine Or.inr ⟨d.ns, ?_, rfl⟩
+      simp only [packages, mem_dedup, List.mem_flatMap]
+      exact ⟨d, hd, self_mem_prefixes d.ns hns⟩)
+  have hhere : d ∈ defs.filter (fun e => e.ns = d.ns) := List.mem_filter.2 ⟨hd, by simp⟩
+  have hlook : (((aliasTable (defs.filter fun e => e.ns = d.ns)).filter fun a =>
+      !((defs.filter fun e => e.ns = d.ns).map shortRef).contains a.1).lookup (shortRef d)) = none := by
+    apply lookup_none_of_keys
+    intro e he hkey
+    have := (List.mem_filter.1 he).2
+    rw [hkey] at this
+    have hin : ((defs.filter fun e => e.ns = d.ns).map shortRef).contains (shortRef d) = true :=
+      List.contains_iff_mem.2 (List.mem_map.2 ⟨d, hhere, rfl⟩)
+    simp only [hin, Bool.not_true] at this
+    exact absurd this (by decide)
+  simp only [getModelVia, packageAttr, hpkg, renderPackage, hlook, Option.getD_none, find_import defs d hd,
+    Option.bind_some]
+  exact (C18_get_model_is_rendered_model c allow fs fs' defs hmods hdisj h d hd).1
+
 /-- `get_model(pkg.Name_M)` — lookup through the alias of the namespace package — is the model of the definition
 with the **newest minor** version of `(Name, M)` in that package (`hk`), in the same run.  `halias`: no other
-`(name, major)` of the package spells the same alias (`Name_M` is read as a string by Python). -/
+`(name, major)` of the package spells the same alias; `hfree`: no class of the package is called `Name_M` (then the
+alias is not emitted at all — Python reads both as plain strings). -/
 theorem C18_get_model_through_alias {M B : Type} (c : Codec M B) (allow : Bool) (fs fs' : FS B) (defs : List (Def M))
     (hmods : (defs.map modulePath).Nodup) (hdisj : ∀ d ∈ defs, modulePath d ∉ packages defs)
     (h : generateAll c allow fs defs = .ok fs') (d : Def M) (hd : d ∈ defs) (hns : d.ns ≠ [])
     (hk : newestMinor ((defs.filter fun e => e.ns = d.ns).map tyId) d.name d.major = some d.minor)
     (halias : ∀ e ∈ defs, e.ns = d.ns → aliasName e.name e.major = aliasName d.name d.major →
-      e.name = d.name ∧ e.major = d.major) :
+      e.name = d.name ∧ e.major = d.major)
+    (hfree : ∀ e ∈ defs, e.ns = d.ns → shortRef e ≠ aliasName d.name d.major) :
     getModelVia c fs' d.ns (aliasName d.name d.major) = some d.model := by
   have hspec := (writeAll_spec allow (outputs c defs) fs fs' (outputs_nodup c defs hmods hdisj) h).1
   have hpkg : fs' d.ns = some (renderPackage defs d.ns) :=
@@ -822,19 +869,27 @@ theorem C18_get_model_through_alias {M B : Type} (c : Codec M B) (allow : Bool) 
       simp only [packages, mem_dedup, List.mem_flatMap]
       exact ⟨d, hd, self_mem_prefixes d.ns hns⟩)
   have hhere : d ∈ defs.filter (fun e => e.ns = d.ns) := List.mem_filter.2 ⟨hd, by simp⟩
+  have hkeep : ((defs.filter fun e => e.ns = d.ns).map shortRef).contains (aliasName d.name d.major) = false := by
+    rw [Bool.eq_false_iff]
+    intro hc
+    obtain ⟨e, he, hse⟩ := List.mem_map.1 (List.contains_iff_mem.1 hc)
+    obtain ⟨hed, hens⟩ := List.mem_filter.1 he
+    simp only [decide_eq_true_eq] at hens
+    exact hfree e hed hens hse
   -- the alias table maps `Name_M` to the short reference name of `d`
-  have hlook : (((aliases ((defs.filter fun e => e.ns = d.ns).map tyId)).map fun t =>
-      (aliasName t.name t.major, s!"{t.name}_{t.major}_{t.minor}")).lookup (aliasName d.name d.major))
+  have hlook : (((aliasTable (defs.filter fun e => e.ns = d.ns)).filter fun a =>
+      !((defs.filter fun e => e.ns = d.ns).map shortRef).contains a.1).lookup (aliasName d.name d.major))
       = some (shortRef d) := by
     apply lookup_of_unique
     · obtain ⟨u, hu, hun, hum⟩ := aliasesFrom_complete ((defs.filter fun e => e.ns = d.ns).map tyId)
         ((defs.filter fun e => e.ns = d.ns).map tyId) [] (tyId d) (List.mem_map.2 ⟨d, hhere, rfl⟩)
         (by simp) ⟨d.minor, hk⟩
-      refine ⟨_, List.mem_map.2 ⟨u, hu, rfl⟩, ?_⟩
       simp only [tyId] at hun hum
-      simp [hun, hum]
+      refine ⟨(aliasName u.name u.major, s!"{u.name}_{u.major}_{u.minor}"), List.mem_filter.2
+        ⟨List.mem_map.2 ⟨u, hu, rfl⟩, ?_⟩, by simp [hun, hum]⟩
+      simp only [hun, hum, hkeep, Bool.not_false]
     · intro e he hkey
-      obtain ⟨u, hu, rfl⟩ := List.mem_map.1 he
+      obtain ⟨u, hu, rfl⟩ := List.mem_map.1 (List.mem_filter.1 he).1
       have hnew := aliasesFrom_sound _ _ _ u hu
       obtain ⟨⟨dep, hmem⟩, _⟩ := C18_alias_is_newest_minor _ _ _ _ hnew
       obtain ⟨e0, he0, hte⟩ := List.mem_map.1 hmem
@@ -847,26 +902,22 @@ theorem C18_get_model_through_alias {M B : Type} (c : Codec M B) (allow : Bool) 
       rw [hun, hum, hk] at hnew
       simp only [Option.some.injEq] at hnew
       simp only [shortRef, hun, hum, ← hnew]
-  have hfind : ((defs.filter fun e => e.ns = d.ns).map fun e => (modulePath e, shortRef e)).find?
-      (fun mc => mc.2 = shortRef d) = some (modulePath d, shortRef d) := by
-    have hex : ∃ x ∈ ((defs.filter fun e => e.ns = d.ns).map fun e => (modulePath e, shortRef e)),
-        (fun mc : Path × String => decide (mc.2 = shortRef d)) x = true :=
-      ⟨(modulePath d, shortRef d), List.mem_map.2 ⟨d, hhere, rfl⟩, by simp⟩
-    cases hf : ((defs.filter fun e => e.ns = d.ns).map fun e => (modulePath e, shortRef e)).find?
-        (fun mc => mc.2 = shortRef d) with
-    | none =>
-      rw [List.find?_eq_none] at hf
-      obtain ⟨x, hx, hpx⟩ := hex
-      exact absurd hpx (hf x hx)
-    | some mc =>
-      have hp := List.find?_some hf
-      have hm := List.mem_of_find?_eq_some hf
-      obtain ⟨e, he, rfl⟩ := List.mem_map.1 hm
-      obtain ⟨_, hens⟩ := List.mem_filter.1 he
-      simp only [decide_eq_true_eq] at hens hp
-      simp only [modulePath, hens, hp]
-  simp only [getModelVia, packageAttr, hpkg, renderPackage, hlook, Option.getD_some, hfind, Option.bind_some]
+  simp only [getModelVia, packageAttr, hpkg, renderPackage, hlook, Option.getD_some, find_import defs d hd,
+    Option.bind_some]
   exact (C18_get_model_is_rendered_model c allow fs fs' defs hmods hdisj h d hd).1
+
+/-- The defect repaired by `fix: a Python package alias no longer rebinds the name of a generated class`
+(replayed on the generated package by the harness, corpus `alias.json`): with `A.1.2` and `A_1.2.0` in one namespace
+the alias of the second (`A_1_2 = A_1_2_0`) used to shadow the class of the first. -/
+example :
+    let defs : List (Def String) := [⟨["pn"], "A", 1, 2, "mA", none⟩, ⟨["pn"], "A_1", 2, 0, "mB", none⟩]
+    let mods : FS String := write (write emptyFS ["pn", "A_1_2"] (renderType idCodec defs[0]))
+      ["pn", "A_1_2_0"] (renderType idCodec defs[1])
+    getModelVia idCodec (write mods ["pn"] (renderPackageBeforeFix defs ["pn"])) ["pn"] "A_1_2" = some "mB"
+    ∧ getModelVia idCodec (write mods ["pn"] (renderPackage defs ["pn"])) ["pn"] "A_1_2" = some "mA"
+    ∧ getModelVia idCodec (write mods ["pn"] (renderPackage defs ["pn"])) ["pn"] "A_1" = some "mA"
+    ∧ getModelVia idCodec (write mods ["pn"] (renderPackage defs ["pn"])) ["pn"] "A_1_2_0" = some "mB" := by
+  refine ⟨?_, ?_, ?_, ?_⟩ <;> decide
 
 /-- Non-vacuity: the history of seeded C18-13 in the model.  Revision 0 (`Bar` = m0, `Foo` nests it = f0) is generated
 into an empty directory; then only `Bar` is edited, which changes the model of `Foo` too (f1), and the namespace is
